@@ -4,7 +4,7 @@
 From Coq Require Import ZArith Bool List String Lia PeanoNat.
 From Verif Require Import Base.Word256 Base.PyInt C15.Syntax C15.WordFacts C15.GenUtils C15.Peephole C15.Lower C15.LowerSound
   C15.OptSound C15.OptTree C15.OptTreeSound C15.LowerFlow C15.FlowSound C15.StmtSound C15.SemW C15.SemWSound C15.StmtSoundW
-  C15.WInst.
+  C15.StmtLabelsW C15.WInst.
 Import ListNotations.
 Open Scope Z_scope.
 
@@ -74,6 +74,22 @@ Proof.
 Qed.
 Print Assumptions lower_stmt_with_set_closed.
 
+(* 3. Whole programs (StmtLabelsW.v): for compile_to_assembly of a tree of the fragment the label hypotheses hold (placed
+   labels pairwise distinct, revert block present), so the emitted program, run from the empty stack, realises evalW. *)
+Theorem lower_program_with_set_sound :
+  forall (M : Sem) (opsem : string -> list Z -> St M -> outcome (St M) (Hl M)), StmtOkW M opsem ->
+  forall e code, lower_top e = Ok code -> fragW e ->
+  exists body, (exists rest, code = (body ++ Op "STOP" :: rest)%list) /\
+    forall st,
+      match evalW M opsem e [] st with
+      | NormW v en' st' => starW M opsem code (0%nat, [], st)
+                             (List.length body, (if Nat.eqb (valency e) 1 then [VZ v] else []), st') /\ en' = []
+      | HaltW h => haltsW M opsem code (0%nat, [], st) h
+      | _ => False
+      end.
+Proof. exact lower_top_stmtW. Qed.
+Print Assumptions lower_program_with_set_sound.
+
 (* ---- non-vacuity ---- *)
 (* the hypotheses hold in the concrete state space the check executes (WInst.v): StmtOkW, and so_strict for the
    conservativity theorem; and in the joint instance of the optimiser theorems *)
@@ -100,14 +116,13 @@ Definition with_set_example : expr :=
                 Node "mstore" [Lit 0; Var "x"]]].
 Example with_set_fragment_nonvacuous :
   fragW with_set_example /\
-  (exists code s', lower 64 [] None 0%nat with_set_example
-                     {| cnt := 0%nat; revl := None; labels := []; lh := []; dsegs := [] |} = Ok (code, s')) /\
+  (exists code, lower_top with_set_example = Ok code) /\
   (* x = 5: x := 6; inner x = 12, operand order: the assignment (last operand) happens first: 100 + 100; outer x still 6 *)
   evalW TSem tops with_set_example [] (([], [], [5]) : TSt) = @NormW TSem 0 [] (([(0, 6); (32, 200)], [], [5]) : TSt).
 Proof.
   split; [|split].
   - vm_compute. repeat split; try reflexivity; try (left; reflexivity); try (right; reflexivity); try lia;
       try (intros C; intuition discriminate).
-  - eexists. eexists. vm_compute. reflexivity.
+  - eexists. vm_compute. reflexivity.
   - vm_compute. reflexivity.
 Qed.
